@@ -334,6 +334,18 @@ def footerCheck (H : Hash) (checkSize : Bool) (d : Bytes) : Out :=
       else if checkSize && n != expectedSize f then .size
       else .pass (byteAt f 8) (byteAt f 12) (byteAt f 14) (leNat (slice f 16 4))
 
+/-- `IndexFooter::is_valid` by itself, on the 28-byte footer record `toc_hash(8) ‖ fields(12) ‖
+footer_hash(8)` read field by field into the struct (what `ArchiveIndex::parse` builds from a
+footer whose size byte is 8): `actual_len = min(footer_hash.len(), footer_hash_bytes)` bytes of
+the stored hash are compared with as many bytes of `H(fields ‖ 0⁸)[..8]` — slice EQUALITY, every
+compared byte on its own (no folding of differences). `footerCheck` answers `checksum` exactly when
+this is false (`Props.C07.aidx_checksum_stage_is_isValid`). -/
+def isValid (H : Hash) (ft : Bytes) : Bool :=
+  let f := ft.take 20
+  let fh := ft.drop 20
+  let al := min fh.length (byteAt f 15)
+  fh.take al == ((H (hashedOf f)).take 8).take al
+
 end Aidx
 
 /-! ## Update-section entries -/
@@ -550,6 +562,33 @@ def caGet (H : Hash) (l : Layer) (c : Bytes) : Out :=
   match lookup c l with
   | none => .none
   | some v => if H v == c then .hit v else .invalid
+
+/-- `ContentAddressedCache::get_validated` against a backing store that may answer EVERY read
+differently (a concurrent writer, another process rewriting the DiskCache file, a failing disk,
+an entry expiring): `r k` is what the `k`-th `inner.get` made by this one call returns
+(`k = 1, 2, …`). The code as written reads ONCE, hashes that buffer and hands out that same
+buffer. Returns the outcome and the number of reads made. -/
+def caGetReads (H : Hash) (r : Nat → Option Bytes) (c : Bytes) : Out × Nat :=
+  match r 1 with
+  | none => (.none, 1)
+  | some v => (if H v == c then .hit v else .invalid, 1)
+
+/-- a fault of the backing store during one call: at its `n`-th read of the key the store answers
+`alt` (`none` = the entry is gone) instead of what it holds; `stays` = the store was rewritten just
+before that read (later reads and later calls see `alt` too), otherwise only that read is affected. -/
+structure Fault where
+  n : Nat
+  stays : Bool
+  alt : Option Bytes
+deriving Repr
+
+/-- what the `k`-th read of the call returns when the store holds `cur` at the start. -/
+def Fault.reads (f : Fault) (cur : Option Bytes) (k : Nat) : Option Bytes :=
+  if k = f.n || (f.stays && decide (f.n < k)) then f.alt else cur
+
+/-- the store after a call that made `made` reads. -/
+def Fault.after (f : Fault) (c : Bytes) (l : Layer) (made : Nat) : Layer :=
+  if f.stays && decide (f.n ≤ made) then (match f.alt with | some b => insert c b l | none => erase c l) else l
 
 /-- `ContentAddressedCache::put_validated`. -/
 def caPut (H : Hash) (l : Layer) (c v : Bytes) : Layer × Out :=
